@@ -4,7 +4,8 @@
 From Coq Require Import List NArith.
 From LV Require Import Base.Bytes Router.Url Router.UrlProofs
   ServerFn.ErrorCodec ServerFn.ErrorCodecProofs ServerFn.Base64Proofs ServerFn.UrlFormProofs
-  ServerFn.Protocol ServerFn.ProtocolProofs ServerFn.Websocket ServerFn.WebsocketProofs.
+  ServerFn.Protocol ServerFn.ProtocolProofs ServerFn.Websocket ServerFn.WebsocketProofs
+  ServerFn.InjectiveProofs.
 Import ListNotations.
 Open Scope N_scope.
 
@@ -218,3 +219,31 @@ Theorem C13_error_string_roundtrip :
   exists s, sfe_to_string C cdisplay e = Some s /\ sfe_from_str C cparse s = e.
 Proof. exact sfe_string_roundtrip. Qed.
 Print Assumptions C13_error_string_roundtrip.
+
+(** the wire forms are injective, so the receiving side cannot take one failure for another:
+    two different errors (kind or message) never share a wire text … *)
+Theorem C13_error_wire_injective :
+  forall (C : Type) (cdisplay : C -> bytes) (cparse : bytes -> option C) (e1 e2 : sfe C),
+  err_ok C cdisplay cparse e1 -> err_ok C cdisplay cparse e2 ->
+  ser C cdisplay e1 = ser C cdisplay e2 -> e1 = e2.
+Proof. exact ser_injective. Qed.
+Print Assumptions C13_error_wire_injective.
+
+(** … two different byte strings never share a base64 text (either engine) … *)
+Theorem C13_base64_injective :
+  forall (url pad : bool) (l1 l2 : bytes),
+  all_bytes l1 = true -> all_bytes l2 = true ->
+  b64_encode url pad l1 = b64_encode url pad l2 -> l1 = l2.
+Proof. exact b64_encode_injective. Qed.
+Print Assumptions C13_base64_injective.
+
+(** … and from one referer two different (server-function path, error) pairs never give the
+    same redirect URL *)
+Theorem C13_url_error_injective :
+  forall (C : Type) (cdisplay : C -> bytes) (cparse : bytes -> option C)
+         (u : purl) (p1 p2 : bytes) (e1 e2 : sfe C),
+  err_ok C cdisplay cparse e1 -> err_ok C cdisplay cparse e2 ->
+  utf8_valid p1 = true -> utf8_valid p2 = true ->
+  to_url C cdisplay u p1 e1 = to_url C cdisplay u p2 e2 -> p1 = p2 /\ e1 = e2.
+Proof. exact to_url_injective. Qed.
+Print Assumptions C13_url_error_injective.
